@@ -912,6 +912,10 @@ __guess_dtyp(struct strpd_s d)
 		}
 #endif	/* WITH_FAST_ARITH */
 		res.ymcw.w = d.w;
+	} else if (d.y > 0 && d.flags.bizda &&
+		   (d.m <= 0 || d.m > (int)GREG_MONTHS_P_YEAR)) {
+		/* business days count within a month */
+		;
 	} else if (d.y > 0 && d.flags.bizda) {
 		/* d.c can be legit'ly naught */
 		dt_bizda_param_t bp = __make_bizda_param(d.flags.ab, 0);
